@@ -320,7 +320,8 @@ Section Fun.
       valid_ip a = true /\
       blocked pol a = false /\
       out = join_host_port (ip_text ip_str a z) port /\
-      lk = lookup_flag host.
+      lk = lookup_flag host /\
+      zoned_v4 a z = false.
   Proof.
     unfold parse_or_resolve, parse_or_resolve_tr.
     destruct (parse_ip s) eqn:Ep; [discriminate|].
@@ -329,6 +330,7 @@ Section Fun.
     destruct (port_ok port) eqn:Epo; [|discriminate]. cbn [negb].
     destruct (resolve host) as [[a z]|] eqn:Er; [|discriminate].
     destruct (valid_ip a) eqn:Ev; [|discriminate]. cbn [negb].
+    destruct (zoned_v4 a z) eqn:Ez; [discriminate|].
     destruct (blocked pol a) eqn:Eb; [discriminate|].
     cbn [fst]. intro H. injection H as <- <-.
     exists host, port, a, z. repeat split; auto.
@@ -338,18 +340,18 @@ Section Fun.
   Lemma accepted_when_permitted pol s host port a z :
     parse_ip s = None -> split_host_port s = Some (host, port) -> port_ok port = true ->
     dom_blocked re_match pol host = false -> resolve host = Some (a, z) -> valid_ip a = true ->
-    blocked pol a = false ->
+    zoned_v4 a z = false -> blocked pol a = false ->
     por pol s = (Some (join_host_port (ip_text ip_str a z) port), lookup_flag host).
   Proof.
-    intros Hp Hs Hpo Hd Hr Hv Hb. unfold parse_or_resolve, parse_or_resolve_tr.
-    rewrite Hp, Hs, Hd, Hpo, Hr, Hv, Hb. reflexivity.
+    intros Hp Hs Hpo Hd Hr Hv Hz Hb. unfold parse_or_resolve, parse_or_resolve_tr.
+    rewrite Hp, Hs, Hd, Hpo, Hr, Hv, Hz, Hb. reflexivity.
   Qed.
 
   (* each way of being forbidden is a rejection *)
   Lemma rejected_when_forbidden pol s host port :
     split_host_port s = Some (host, port) ->
     (dom_blocked re_match pol host = true \/ port_ok port = false \/ resolve host = None \/
-     (exists a z, resolve host = Some (a, z) /\ (valid_ip a = false \/ blocked pol a = true))) ->
+     (exists a z, resolve host = Some (a, z) /\ (valid_ip a = false \/ blocked pol a = true \/ zoned_v4 a z = true))) ->
     fst (por pol s) = None.
   Proof.
     intros Hs H. unfold parse_or_resolve, parse_or_resolve_tr.
@@ -358,8 +360,9 @@ Section Fun.
     destruct (port_ok port) eqn:Ep; [|reflexivity]. cbn [negb].
     destruct H as [H|[H|[H|(a & z & Hr & H)]]]; try discriminate.
     - rewrite H. reflexivity.
-    - rewrite Hr. destruct H as [H|H].
+    - rewrite Hr. destruct H as [H|[H|H]].
       + rewrite H. reflexivity.
+      + destruct (valid_ip a); [|reflexivity]. cbn [negb]. destruct (zoned_v4 a z); [reflexivity|]. rewrite H. reflexivity.
       + destruct (valid_ip a); [|reflexivity]. cbn [negb]. rewrite H. reflexivity.
   Qed.
 
@@ -388,6 +391,7 @@ Section Fun.
     destruct (negb (port_ok port)); [cbn; lia|].
     destruct (resolve host) as [[a z]|]; [|cbn; lia].
     destruct (negb (valid_ip a)); [cbn; lia|].
+    destruct (zoned_v4 a z); [cbn; lia|].
     destruct (blocked pol a); cbn; lia.
   Qed.
 
@@ -403,6 +407,7 @@ Section Fun.
     { intros [<-|[]]. now exists port. }
     destruct (resolve host) as [[a z]|]; [|exact G].
     destruct (negb (valid_ip a)); [exact G|].
+    destruct (zoned_v4 a z); [exact G|].
     destruct (blocked pol a); exact G.
   Qed.
 
@@ -418,6 +423,7 @@ Section Fun.
     destruct (port_ok port) eqn:Epo; [|discriminate]. cbn [negb].
     destruct (resolve host) as [[a z]|] eqn:Er; [|discriminate].
     destruct (valid_ip a) eqn:Ev; [|discriminate]. cbn [negb].
+    destruct (zoned_v4 a z) eqn:Ez; [discriminate|].
     destruct (blocked pol a) eqn:Eb; [discriminate|].
     intros _. exists host, port. split; reflexivity.
   Qed.
@@ -483,6 +489,29 @@ Qed.
 
 Definition addr_is_v4 (ip : ipraw) : bool := match to4 ip with Some _ => true | None => false end.
 
+Lemma zoned_v4_false_iff a z : zoned_v4 a z = false <-> (addr_is_v4 a = true -> z = []).
+Proof.
+  unfold zoned_v4, addr_is_v4. destruct z as [|c z].
+  - split; [intros _ _; reflexivity | reflexivity].
+  - destruct (to4 a).
+    + split; [discriminate | intro H; now specialize (H eq_refl)].
+    + split; [intros _ H; discriminate | reflexivity].
+Qed.
+
+(* for a real address: it has an IPv4 form iff its To4-normal form is 4 bytes long *)
+Lemma addr_is_v4_length a : valid_ip a = true -> addr_is_v4 a = Nat.eqb (length (norm a)) 4.
+Proof.
+  unfold valid_ip, addr_is_v4, norm, to4, len_is. intro Hv.
+  destruct (Nat.eqb (length a) 4) eqn:E4; [now rewrite E4|].
+  cbn [orb] in Hv. rewrite Hv. cbn [andb].
+  destruct (bytes_eqb (firstn 12 a) v4in6_prefix).
+  - apply Nat.eqb_eq in Hv. rewrite skipn_length, Hv. reflexivity.
+  - now rewrite E4.
+Qed.
+
+Lemma addr_is_v4_norm a a' : valid_ip a = true -> valid_ip a' = true -> norm a = norm a' -> addr_is_v4 a = addr_is_v4 a'.
+Proof. intros Hv Hv' Hn. now rewrite (addr_is_v4_length a Hv), (addr_is_v4_length a' Hv'), Hn. Qed.
+
 (* ================================================================ Go's net package, assumed *)
 Section GoNet.
   Variable parse_ip : bytes -> option ipraw.
@@ -501,9 +530,9 @@ Section GoNet.
   Definition literal_law (resolve : bytes -> option (ipraw * bytes)) : Prop :=
     forall a z, valid_ip a = true -> wf_bytes a = true -> (addr_is_v4 a = true -> z = []) -> no_brackets z = true ->
       exists a', resolve (ip_text ip_str a z) = Some (a', z) /\ norm a' = norm a /\ valid_ip a' = true.
-  (* what a resolver returns is made of bytes, and an IPv4 address carries no zone *)
+  (* what a resolver returns is made of bytes *)
   Definition resolver_wf (resolve : bytes -> option (ipraw * bytes)) : Prop :=
-    forall h a z, resolve h = Some (a, z) -> wf_bytes a = true /\ (addr_is_v4 a = true -> z = []).
+    forall h a z, resolve h = Some (a, z) -> wf_bytes a = true.
   (* G3: the zone returned for a host is a piece of that host *)
   Definition zone_law (resolve : bytes -> option (ipraw * bytes)) : Prop :=
     forall h a z, resolve h = Some (a, z) -> no_brackets h = true -> no_brackets z = true.
@@ -533,7 +562,9 @@ Section GoNet.
     { apply split_join; [now apply ip_text_no_brackets | now apply port_ok_plain]. }
     destruct (Hlit a z Ha Hw H4 Hz) as (a' & Hr & Hn & Hv').
     assert (Hpi : parse_ip s = None) by (apply parse_ip_not_hostport; congruence).
-    rewrite (accepted_when_permitted parse_ip resolve ip_str re_match pol s _ _ a' z Hpi Hs Hp Hd Hr Hv').
+    assert (Hzv : zoned_v4 a' z = false).
+    { apply zoned_v4_false_iff. rewrite (addr_is_v4_norm a' a Hv' Ha Hn). exact H4. }
+    rewrite (accepted_when_permitted parse_ip resolve ip_str re_match pol s _ _ a' z Hpi Hs Hp Hd Hr Hv' Hzv).
     - cbn [fst]. unfold s. now rewrite (ip_text_norm a' a z Hv' Ha Hn).
     - now rewrite (blocked_norm pol a' a Hn).
   Qed.
@@ -552,7 +583,9 @@ Section GoNet.
     assert (Hs : split_host_port s = Some (ip_text ip_str a z, port)).
     { apply split_join; [now apply ip_text_no_brackets | now apply port_ok_plain]. }
     destruct (Hlit a z Ha Hw H4 Hz) as (a' & Hr & Hn & Hv').
-    rewrite (accepted_when_permitted parse_ip resolve ip_str re_match pol s _ _ a' z Hpi Hs Hp Hd Hr Hv').
+    assert (Hzv : zoned_v4 a' z = false).
+    { apply zoned_v4_false_iff. rewrite (addr_is_v4_norm a' a Hv' Ha Hn). exact H4. }
+    rewrite (accepted_when_permitted parse_ip resolve ip_str re_match pol s _ _ a' z Hpi Hs Hp Hd Hr Hv' Hzv).
     - cbn [fst]. unfold s. now rewrite (ip_text_norm a' a z Hv' Ha Hn).
     - now rewrite (blocked_norm pol a' a Hn).
   Qed.
@@ -570,10 +603,11 @@ Section GoNet.
   Proof.
     intros Hz Hwf Hlit H.
     destruct (accepted_is_checked_literal _ _ _ _ _ _ _ _ H)
-      as (host & port & a & z & _ & Hs & Hp & _ & Hr & Hv & Hb & -> & _).
+      as (host & port & a & z & _ & Hs & Hp & _ & Hr & Hv & Hb & -> & _ & Hzv).
     pose proof (split_host_no_brackets _ _ _ Hs) as Hh.
     pose proof (Hz _ _ _ Hr Hh) as Hzz.
-    destruct (Hwf _ _ _ Hr) as (Hw & H4).
+    pose proof (Hwf _ _ _ Hr) as Hw.
+    pose proof (proj1 (zoned_v4_false_iff a z) Hzv) as H4.
     destruct (Hlit a z Hv Hw H4 Hzz) as (a' & Hr' & Hn & Hv').
     exists host, port, a, z, a'. repeat split; auto.
     - unfold dial_target. rewrite split_join.
